@@ -10,12 +10,22 @@
                                   own preamble (documented caller duty as hypothesis);
   * `header_bytes_wellformed`     the header/closing bytes the encoder emits are the RFC 8949 encodings
                                   of array(3), tstr "C-DNS", indefinite array start and break (C06).
-  The inner structure (declared lengths = members present, mandatory members, closed indices)
-  is decided by the strict parser + validator `Spec.Cdns.interpret` on every output of the
-  correspondence run, and by the schema-level theorems of Props/C09.
+  Proved here (inner structure, over the schema model `Model.Schema` / `Model.Structs` of the struct writers):
+  * `file_is_one_wellformed_item`  a closed output holding a conforming preamble and conforming blocks is the
+                                  encoding of exactly ONE well-formed data item – array(3), "C-DNS", preamble map,
+                                  indefinite block array – in which every declared array/map length equals the
+                                  number of members actually present (that is what `Item.WF` of `toItem` says:
+                                  lengths are computed from the member lists);
+  * `file_parses_back`            and the strict RFC 8949 parser returns that item for those bytes;
+  * `mandatory_members_present`   a conforming struct value has every member the reader requires.
+  That the library's writers emit exactly the model writer's bytes is the `blk` correspondence (every output of
+  every session, including present-but-empty structures and directly built blocks); closed indices and the
+  schema validity of the values are decided by the validator `Spec.Cdns.interpret` on every output.
 -/
 import CdnsVerif.Props.C13
 import CdnsVerif.Props.C06
+import CdnsVerif.Props.C01
+import CdnsVerif.Proofs.Parse
 
 namespace CdnsVerif.Props.C02
 open CdnsVerif.Model.Exporter CdnsVerif.Spec.Cbor
@@ -54,5 +64,44 @@ theorem header_bytes_wellformed :
     C06.EncOp.spec (.textstring [67, 45, 68, 78, 83]) = [0x65, 67, 45, 68, 78, 83] ∧
     C06.EncOp.spec .indefArrayStart = [0x9f] ∧ C06.EncOp.spec .brk = [0xff] := by
   refine ⟨by decide, by decide, by decide, by decide⟩
+
+/-! ### inner structure (schema model) -/
+
+open CdnsVerif.Model CdnsVerif.Model.Schema CdnsVerif.Model.Structs CdnsVerif.Model.File in
+/-- A closed output is the encoding of exactly one well-formed item with correct declared lengths. -/
+theorem file_is_one_wellformed_item (pv : Val) (blocks : List Val) (hp : Conforms filePreamble pv) (hb : ConformsList block blocks) :
+    fileBytes pv blocks = (C01.fileItem pv blocks).enc ∧ (C01.fileItem pv blocks).WF := by
+  refine ⟨C01.fileBytes_eq pv blocks, ?_⟩
+  have hpwf : (toItem filePreamble pv).WF := (wfs_all (need pv)).1 filePreamble pv (Nat.le_refl _) hp
+  have hbwf := C01.wf_toItems block blocks hb
+  simp only [C01.fileItem, Item.WF, Item.WFList, List.length_cons, List.length_nil]
+  refine ⟨by simp [Width.fits, Width.bound], ⟨by decide, ?_⟩, hpwf, hbwf, trivial⟩
+  intro b hb
+  simp only [File.cdnsText, List.mem_cons, List.mem_nil_iff, or_false] at hb
+  rcases hb with rfl | rfl | rfl | rfl | rfl <;> decide
+
+open CdnsVerif.Model CdnsVerif.Model.Schema CdnsVerif.Model.Structs CdnsVerif.Model.File in
+/-- the strict RFC 8949 parser (the front end of the independent reader) accepts the output and returns that one item -/
+theorem file_parses_back (pv : Val) (blocks : List Val) (hp : Conforms filePreamble pv) (hb : ConformsList block blocks) :
+    parseOne (fileBytes pv blocks) = some (C01.fileItem pv blocks) := by
+  obtain ⟨he, hwf⟩ := file_is_one_wellformed_item pv blocks hp hb
+  rw [he]
+  exact parseOne_enc _ hwf
+
+/-- the strict parser inverts the encoding of EVERY well-formed item (not only of outputs): the independent reader
+    `Spec.Cdns.interpret` therefore sees exactly the syntax tree that was encoded, and no byte string has two readings -/
+theorem strict_parser_inverts_encoding (i : Item) (hwf : i.WF) : parseOne i.enc = some i := parseOne_enc i hwf
+
+open CdnsVerif.Model CdnsVerif.Model.Schema CdnsVerif.Model.Structs in
+/-- every member the reader requires is present in a conforming struct value -/
+theorem mandatory_members_present (fs : List Field) (ms : List (Int × Val)) (h : Conforms (.struct fs) (.record ms)) :
+    ∀ f ∈ fs, f.required = true → ∃ v, (f.key, v) ∈ ms := by
+  simp only [Conforms] at h
+  obtain ⟨_, _, _, hreq, _, _⟩ := h
+  intro f hf hr
+  have := List.all_eq_true.1 hreq f hf
+  simp only [hr, Bool.not_true, Bool.false_or, List.any_eq_true, beq_iff_eq] at this
+  obtain ⟨e, he, hk⟩ := this
+  exact ⟨e.2, by rw [← hk]; exact he⟩
 
 end CdnsVerif.Props.C02
